@@ -686,6 +686,9 @@ class Symex:
         if self.obj_identity and opname in ("in", "not in") and isinstance(a, Obj) \
                 and isinstance(b, (list, tuple, set, frozenset, dict)) and all(isinstance(e, Obj) or _plain(e) for e in b):
             return any(e is a for e in b) == (opname == "in")
+        if isinstance(a, Ext) and isinstance(b, Ext) and opname in ("is", "is not", "==", "!=") \
+                and a.name in _TYPE_NAMES and b.name in _TYPE_NAMES:
+            return (a.name == b.name) == (opname in ("is", "=="))       # type(x) is str
         if isinstance(a, Ext):
             a = sym(a.name)
         if isinstance(b, Ext):
@@ -1677,6 +1680,7 @@ _BIN = {ast.Add: operator.add, ast.Sub: operator.sub, ast.Mult: operator.mul, as
         ast.BitXor: operator.xor, ast.LShift: operator.lshift, ast.RShift: operator.rshift}
 
 _BUILTIN_CONST = {"True": True, "False": False, "None": None}
+_TYPE_NAMES = {"int", "str", "list", "tuple", "dict", "set", "float", "bool", "frozenset", "NoneType"}
 
 _BUILTINS = {
     "len": len, "range": range, "int": int, "str": str, "abs": abs, "sum": sum, "list": list, "tuple": tuple,
